@@ -39,8 +39,13 @@ def run(ctx):
         data = b'\n'.join(parts) + b'\n'
         cut = rnd.random() < 0.25
         if cut: data += rnd.choice([b'[3,', b'{"a": ', b'"abc', b'tru', b'-', b'[1, 2', b'{"k"'])      # input cut off inside its last value
-        if rnd.random() < 0.2:
-            cfg['select'] = cfg['select'] + ['(nope .)']         # invalid configuration
+        x = rnd.random()
+        if x < 0.15:
+            cfg['select'] = cfg['select'] + ['(nope .)']         # invalid configuration: an expression that does not parse
+        elif x < 0.3:
+            # invalid configuration: output options that do not belong to the output style
+            if rnd.random() < 0.5: cfg['style'] = rnd.choice(['text', 'csv']); cfg['json_opts'] = (rnd.choice(['pretty', 'consise']), False); cfg['select'] = cfg['select'] or ['.a']; cfg['group'] = None
+            else: cfg['style'] = 'json'; cfg['text_opts'] = rnd.choice([{'headers': True}, {'items_sep': ';'}, {'null': 'NIL'}])
         if rnd.random() < 0.15: cfg['rowsep'] = rnd.choice([';', ' | '])          # no line break: nothing is flushed until the end
         mode = rnd.choice(['pipe', 'pipe', 'pipe', 'full', 'closed'])
         c = mkcase('B%d' % i, cfg, data)
@@ -74,6 +79,8 @@ def run(ctx):
         if rc != 0 and not err.strip(): V('a failing run leaves a message on standard error', 'exit %d, empty stderr' % rc)
         if mode == 'pipe' and c.get('_cut') and cfg['on_error'] == 'panic' and cfg['take'] is None and rc == 0:
             V('--on-error=panic: an input cut off inside its last value fails the run (non-zero status, message on standard error)', 'exit 0', 'non-zero')
+        if mode == 'pipe' and m['result'] in ('err:config', 'err:selection', 'err:sorter', 'err:preset', 'err:style', 'err:start') and (rc == 0 or out or not err.strip()):
+            V('an invalid configuration fails the run: non-zero status, a message on standard error, nothing on standard output', 'exit %s, %d bytes on stdout: %r' % (rc, len(out), out[:80]), 'non-zero, empty stdout')
         if mode == 'pipe':
             eo = lib.ERRLINE.findall(out); ee = [l for l in err.split(b'\n') if l.startswith(b'error:')]
             if cfg['on_error'] == 'stderr':
